@@ -179,13 +179,23 @@ def cases(draw: Any, tier: str) -> Dict[str, Any]:
         # make it invalid: a non-debug site consumes a debug result
         dbg = [s for s in P["body"] if P["fns"][s["fn"]].get("debug")]
         d = draw(st.sampled_from(dbg))
-        how = draw(st.sampled_from(["arg", "kwarg", "flag", "index"]))
+        how = draw(st.sampled_from(["arg", "kwarg", "flag", "index", "nested-flag", "nested-arg"]))
         fn = f"x{len(P['fns'])}"
         P["fns"][fn] = {"kind": "term", "res": "thread"}
         e: Any = ["v", d["out"]]
         st_: Dict[str, Any] = {"k": "call", "fn": fn, "site": gen.site(len(P["body"])), "mark": True, "args": [], "kwargs": {},
                                "active": None, "unpack": None, "tags": [], "out": f"v{len(P['body'])}"}
-        if how == "arg":
+        if how in ("nested-flag", "nested-arg"):
+            # the consumer is a nested DAG: called with the debug result as its activation flag / as an argument
+            inner = {"name": "IN", "params": [] if how == "nested-flag" else [["q0", None]],
+                     "fns": {"g0": {"kind": "term", "res": "thread"}},
+                     "body": [{"k": "call", "fn": "g0", "site": gen.site(len(P["body"]) + 50), "mark": True,
+                               "args": [] if how == "nested-flag" else [["p", "q0"]], "kwargs": {}, "active": None,
+                               "unpack": None, "tags": [], "out": "w0"}],
+                     "ret": ["x", ["v", "w0"]]}
+            st_ = {"k": "sub", "prog": inner, "args": [] if how == "nested-flag" else [e],
+                   "active": e if how == "nested-flag" else None, "out": f"v{len(P['body'])}"}
+        elif how == "arg":
             st_["args"] = [e]
         elif how == "kwarg":
             st_["kwargs"] = {"k": e}
